@@ -8,6 +8,8 @@ CONSTANTS
 INVARIANT Denotes
 INVARIANT RpyRoundTrip
 INVARIANT AxangRoundTrip
+INVARIANT AxangSameRotation
+INVARIANT NegativeReadsTheLongWay
 INVARIANT PowerLaws
 INVARIANT EulerProduct
 POSTCONDITION EmitAll
